@@ -2,7 +2,8 @@
 import busprop
 import gen_bus
 
-RULE = ('python-random histories over 3 connections and 2 names: bursts of numbered unicast calls / signals / replies to '
+RULE = ('(every twelfth history is an on-demand-start history as in C19: held messages are unicast too) ' +
+        'python-random histories over 3 connections and 2 names: bursts of numbered unicast calls / signals / replies to '
         'well-known and unique names and to absent names from 1-3 concurrent writers per round, interleaved with '
         'RequestName(REPLACE)/ReleaseName/close; all four types, NO_REPLY and NO_AUTO_START flags; TLC chooses the '
         'interleaving that explains each round; distinct = distinct scenario texts')
@@ -108,6 +109,11 @@ def fire_and_forget(rng):
 
 
 def gen(rng, i):
+    if i % 12 == 4:
+        # messages held while their destination is being started are unicast too: once, in order, or an error each
+        # (the on-demand histories of C19, validated here with the same specification)
+        import c19
+        return c19.gen(rng, i)
     if i % 6 == 1:
         return slow_eavesdropper(rng)
     if i % 6 == 5:
